@@ -698,3 +698,222 @@ Lemma run_spec c fids dm k0 ops : special c = false -> fault_free ops -> clock_o
 Proof.
   intros Hsp Hff Hc. apply run_from_spec; auto; [apply sinv_init|rewrite D_init; reflexivity].
 Qed.
+
+(* ================================================================== C08 *)
+(* ---------- the list order of the directory IS the reading order ---------- *)
+Definition stamp_of (f : file) : Z := match f_name f with NStamp t => t | _ => 0 end.
+Definition sink_files (fs : list file) : list file := filter (fun f => negb (is_foreign (f_name f))) fs.
+
+Lemma stamped_sorted_eq fs : StronglySorted nlt (names fs) ->
+  stamped_sorted fs = map (fun f => (stamp_of f, f)) (filter (fun f => is_stamp (f_name f)) fs).
+Proof.
+  induction fs as [|f t IH]; cbn [stamped_sorted filter names map]; intros Hs; [reflexivity|].
+  inversion Hs as [|? ? Ht Ha]; subst. destruct (f_name f) eqn:En; cbn [is_stamp]; try (apply IH; exact Ht).
+  rewrite IH by exact Ht. cbn [map]. assert (Est : stamp_of f = ts) by (unfold stamp_of; rewrite En; reflexivity). rewrite Est.
+  destruct (filter (fun f0 => is_stamp (f_name f0)) t) as [|g l] eqn:Ef; [reflexivity|]. cbn [map ins_file].
+  assert (Hg : In g t /\ is_stamp (f_name g) = true).
+  { apply (proj1 (filter_In (fun f0 => is_stamp (f_name f0)) g t)). rewrite Ef. left. reflexivity. }
+  destruct Hg as [Hg1 Hg2]. rewrite Forall_forall in Ha. specialize (Ha (f_name g) (in_map _ _ _ Hg1)).
+  unfold stamp_of. destruct (f_name g); try discriminate. cbn in Ha. replace (ts <=? ts0) with true by lia. reflexivity.
+Qed.
+
+Lemma reading_files_eq fs : StronglySorted nlt (names fs) -> reading_files fs = sink_files fs.
+Proof.
+  intros Hs. unfold reading_files. rewrite stamped_sorted_eq by exact Hs. rewrite map_map. cbn [snd]. rewrite map_id.
+  unfold plain_files, sink_files. induction fs as [|f t IH]; [reflexivity|]. cbn [filter names map] in *.
+  inversion Hs as [|? ? Ht Ha]; subst. destruct (f_name f) eqn:En; cbn [is_stamp is_plain is_foreign negb].
+  - apply IH. exact Ht.
+  - cbn [app]. f_equal. apply IH. exact Ht.
+  - destruct t as [|g t']; [reflexivity|]. inversion Ha as [|? ? Hfg _]; subst. exfalso. exact (nlt_plain_false _ Hfg).
+Qed.
+
+Lemma contents_sink_files fs : (forall f, In f fs -> is_foreign (f_name f) = true -> f_data f = []) ->
+  contents (sink_files fs) = contents fs.
+Proof.
+  induction fs as [|f t IH]; intros Hf; [reflexivity|]. unfold sink_files in *. cbn [filter].
+  destruct (is_foreign (f_name f)) eqn:E; cbn [negb].
+  - rewrite contents_cons, (Hf f (or_introl eq_refl) E). cbn [app]. apply IH. intros g Hg. apply Hf. right. exact Hg.
+  - rewrite !contents_cons. f_equal. apply IH. intros g Hg. apply Hf. right. exact Hg.
+Qed.
+
+Lemma reading_eq_contents c w : sinv c w -> reading (files w) = contents (files w).
+Proof.
+  intros Hi. unfold reading. rewrite reading_files_eq by exact (i_sorted _ _ Hi).
+  apply contents_sink_files. exact (i_foreign _ _ Hi).
+Qed.
+
+Section History.
+  Variables (c : cfg) (fids : list N) (dm : option N) (k0 : Z) (ops : list op).
+  Hypothesis Hdir : special c = false.           (* a directory path: not /dev/null, /dev/stdout, /dev/stderr *)
+  Hypothesis Hff : fault_free ops.               (* no write(2) failure *)
+  Hypothesis Hclk : clock_ok k0 ops.             (* clock readings strictly increase *)
+  Let w := run c fids dm k0 ops.
+
+  (* Reading the sink's files oldest to newest (ascending stamps, the plain name last) yields exactly the acknowledged
+     sequence minus a prefix, and that prefix is what pruneFiles removed: nothing lost, duplicated, reordered or torn. *)
+  Theorem acked_is_pruned_plus_reading : acked w = pruned w ++ reading (files w).
+  Proof.
+    destruct (run_spec c fids dm k0 ops Hdir Hff Hclk) as [Hi Ha]. fold w in Hi, Ha.
+    rewrite (reading_eq_contents c w Hi). exact Ha.
+  Qed.
+  Theorem acked_suffix : exists k, reading (files w) = skipn k (acked w).
+  Proof.
+    exists (length (pruned w)). rewrite acked_is_pruned_plus_reading. rewrite skipn_app, skipn_all, Nat.sub_diag. reflexivity.
+  Qed.
+  Theorem pruned_is_prefix : pruned w = firstn (length (pruned w)) (acked w).
+  Proof.
+    rewrite acked_is_pruned_plus_reading. rewrite firstn_app, firstn_all, Nat.sub_diag. cbn [firstn]. rewrite app_nil_r. reflexivity.
+  Qed.
+  Theorem nothing_pruned_nothing_lost : pruned w = [] -> reading (files w) = acked w.
+  Proof. intros Hp. rewrite acked_is_pruned_plus_reading, Hp. reflexivity. Qed.
+  (* the files, in the order in which they were created, are in reading order: stamps strictly ascending, plain name last *)
+  Theorem reading_order : StronglySorted nlt (names (files w)) /\ reading_files (files w) = sink_files (files w).
+  Proof.
+    destruct (run_spec c fids dm k0 ops Hdir Hff Hclk) as [Hi _]. fold w in Hi.
+    split; [exact (i_sorted _ _ Hi)|apply reading_files_eq; exact (i_sorted _ _ Hi)].
+  Qed.
+  Theorem reachable_sinv : sinv c w.
+  Proof. exact (proj1 (run_spec c fids dm k0 ops Hdir Hff Hclk)). Qed.
+End History.
+
+(* ---------- without a retention limit nothing is ever removed ---------- *)
+Lemma do_open_pruned c w t : pruned (do_open c w t) = pruned w.
+Proof. unfold do_open. destruct (fopen w); [reflexivity|]. destruct (lookup_name _ _); reflexivity. Qed.
+Lemma prune_n_nolimit c w j : maxFiles c = 0%N -> prune_n j c w = w.
+Proof. intros H. unfold prune_n. rewrite H. rewrite orb_true_r. reflexivity. Qed.
+Lemma append_pruned w x s b : pruned (append_chunk w x s b) = pruned w.
+Proof. unfold append_chunk. destruct (fopen w) as [[? ?]|]; reflexivity. Qed.
+Lemma rotate_pruned_nolimit c w t2 t3 t4 : maxFiles c = 0%N -> pruned (fst (fst (do_rotate c w t2 t3 t4))) = pruned w.
+Proof.
+  intros H. unfold do_rotate, prune. destruct (rotate_due c w t2); [|reflexivity]. destruct (tsOnly c).
+  - destruct (fs_rename _ _ _); cbn [fst]; [|reflexivity]. rewrite do_open_pruned, prune_n_nolimit by exact H. reflexivity.
+  - cbn [fst]. rewrite do_open_pruned, prune_n_nolimit by exact H. reflexivity.
+Qed.
+Lemma step_pruned_nolimit c w o : maxFiles c = 0%N -> pruned (step c w o) = pruned w.
+Proof.
+  intros H. unfold step. destruct o as [id size t1 t2 t3 t4 t5 flt|t|t|t]; cbn [step3].
+  - destruct (special c).
+    + cbn [fst]. unfold std_write. destruct (path c); reflexivity.
+    + unfold do_write. pose proof (rotate_pruned_nolimit c (do_open c w t1) t2 t3 t4 H) as Hr.
+      destruct (do_rotate c (do_open c w t1) t2 t3 t4) as [[w2 ok] rot]. cbn [fst] in Hr. rewrite do_open_pruned in Hr.
+      destruct ok; cbn [negb fst]; [|exact Hr].
+      destruct (first_fails flt); cbn [negb fst].
+      * destruct (second_fails flt); cbn [fst pruned set_clock ack]; rewrite ?append_pruned, do_reopen_eq, do_open_pruned; cbn [pruned set_fopen];
+          destruct (leaves_partial flt); rewrite ?append_pruned; exact Hr.
+      * cbn [pruned set_clock ack]. rewrite append_pruned. exact Hr.
+  - destruct (special c); cbn [fst]; [reflexivity|]. rewrite do_reopen_eq, do_open_pruned. reflexivity.
+  - destruct (active_file w); [destruct (fs_rename _ _ _)|]; reflexivity.
+  - reflexivity.
+Qed.
+Lemma run_pruned_nolimit c fids dm k0 ops : maxFiles c = 0%N -> pruned (run c fids dm k0 ops) = [].
+Proof.
+  intros H. unfold run, run_from. assert (H0 : pruned (w_init fids dm k0) = []) by reflexivity. revert H0. generalize (w_init fids dm k0).
+  induction ops as [|o r IH]; intros w Hw; cbn [fold_left]; [exact Hw|]. apply IH. rewrite step_pruned_nolimit by exact H. exact Hw.
+Qed.
+Theorem no_prune_no_loss c fids dm k0 ops : special c = false -> fault_free ops -> clock_ok k0 ops ->
+  maxFiles c = 0%N -> reading (files (run c fids dm k0 ops)) = acked (run c fids dm k0 ops).
+Proof.
+  intros Hd Hf Hc Hm. apply nothing_pruned_nothing_lost; auto. apply run_pruned_nolimit. exact Hm.
+Qed.
+
+(* ---------- a crash at any boundary between atomic file-system steps leaves only whole events ---------- *)
+Definition in_flight (o : op) : option N := match o with Write id _ _ _ _ _ _ _ => Some id | _ => None end.
+(* what a reader finds after the crash: all acknowledged events (minus what retention removed), plus at most the whole in-flight one *)
+Definition crash_ok (c : cfg) (w : world) (o : op) (w' : world) : Prop :=
+  sinv c w' /\
+  (pruned w' ++ reading (files w') = acked w \/
+   exists id, in_flight o = Some id /\ pruned w' ++ reading (files w') = acked w ++ [id]).
+
+Lemma crash_points_last c w o : last (crash_points c w o) w = step c w o.
+Proof.
+  destruct o as [id size t1 t2 t3 t4 t5 flt|t|t|t]; try reflexivity. cbn [crash_points].
+  destruct (special c || first_fails flt); [reflexivity|].
+  destruct (do_rotate c (do_open c w t1) t2 t3 t4) as [[w2 ok] rot].
+  destruct ok.
+  - rewrite app_assoc. change [append_chunk w2 id size true; step c w (Write id size t1 t2 t3 t4 t5 flt)]
+      with ([append_chunk w2 id size true] ++ [step c w (Write id size t1 t2 t3 t4 t5 flt)]).
+    rewrite app_assoc. apply last_app_single.
+  - rewrite app_assoc. apply last_app_single.
+Qed.
+
+Theorem crash_points_ok c w o : special c = false -> sinv c w -> acked w = D w -> op_incr (clock w) o -> fault_free_op o ->
+  Forall (crash_ok c w o) (crash_points c w o).
+Proof.
+  intros Hsp Hi Ha Hinc Hff.
+  assert (Hstep : crash_ok c w o (step c w o)).
+  { destruct (step_spec c w o Hsp Hi Hinc) as [S1 [_ S3]]. destruct (S3 Hff) as [S4 _]. split; [exact S1|].
+    rewrite (reading_eq_contents c _ S1). fold (D (step c w o)). rewrite S4, <- Ha.
+    unfold op_ack. destruct o as [id size t1 t2 t3 t4 t5 flt|t|t|t]; try (left; apply app_nil_r).
+    unfold ackl. destruct (step_ok c w _); [right; exists id; split; reflexivity|left; apply app_nil_r]. }
+  destruct o as [id size t1 t2 t3 t4 t5 flt|t|t|t]; try (constructor; [exact Hstep|constructor]).
+  cbn [crash_points]. cbn [fault_free_op] in Hff. subst flt. rewrite Hsp. cbn [orb nofault first_fails].
+  cbn [op_incr] in Hinc. destruct Hinc as [H1 [H2 [H3 [H4 H5]]]].
+  assert (Hi1 : sinv c (do_open c w t1)) by (apply sinv_open; assumption).
+  assert (Hc1 : clock (do_open c w t1) < t2) by (rewrite do_open_clock; destruct (fopen w); lia).
+  pose proof (rotate_points_good c _ t2 t3 t4 Hi1 Hc1 H3 H4) as Hpts.
+  pose proof (rotate_spec c _ t2 t3 t4 Hi1 Hc1 H3 H4) as [G1 [G2 _]].
+  destruct (do_open_fopen c w t1) as [o1 Ho1].
+  pose proof (rotate_ok_open c _ t2 t3 t4 o1 Ho1) as Hok.
+  assert (Hgood : forall w', good c (do_open c w t1) t4 w' -> crash_ok c w (Write id size t1 t2 t3 t4 t5 nofault) w').
+  { intros w' [A [B _]]. split; [exact A|]. left. rewrite (reading_eq_contents c _ A). fold (D w'). rewrite B, D_open by exact Hi. congruence. }
+  destruct (do_rotate c (do_open c w t1) t2 t3 t4) as [[w2 ok] rot]. cbn [fst snd] in *.
+  constructor.
+  - apply Hgood. unfold good. conj; auto. lia.
+  - apply Forall_app. split; [eapply Forall_impl; [exact Hgood|exact Hpts]|].
+    destruct ok; [|constructor; [exact Hstep|constructor]].
+    constructor; [|constructor; [exact Hstep|constructor]].
+    destruct (append_spec c w2 id size true G1) as [A1 [A2 _]]. split; [exact A1|]. right. exists id. split; [reflexivity|].
+    rewrite (reading_eq_contents c _ A1). fold (D (append_chunk w2 id size true)). rewrite (A2 (Hok eq_refl)), G2, D_open by exact Hi. congruence.
+Qed.
+
+Lemma clock_ok_app c ops o : special c = false -> forall w0, sinv c w0 -> clock_ok (clock w0) (ops ++ [o]) ->
+  clock_ok (clock w0) ops /\ op_incr (clock (run_from c w0 ops)) o.
+Proof.
+  intros Hsp. induction ops as [|a r IH]; intros w0 Hi0 Hclk; cbn [app clock_ok run_from fold_left] in *; [tauto|].
+  destruct Hclk as [Hc1 Hc2]. destruct (step_spec c w0 a Hsp Hi0 Hc1) as [S1 [S2 _]].
+  rewrite <- S2 in Hc2. destruct (IH (step c w0 a) S1 Hc2) as [I1 I2]. rewrite S2 in I1. tauto.
+Qed.
+
+Theorem crash_whole_events c fids dm k0 ops o :
+  special c = false -> fault_free (ops ++ [o]) -> clock_ok k0 (ops ++ [o]) ->
+  let w := run c fids dm k0 ops in
+  Forall (crash_ok c w o) (crash_points c w o) /\ last (crash_points c w o) w = step c w o.
+Proof.
+  intros Hsp Hff Hclk w. split; [|apply crash_points_last].
+  apply Forall_app in Hff as [Hff1 Hff2]. inversion Hff2 as [|? ? Hfo _]; subst.
+  destruct (clock_ok_app c ops o Hsp (w_init fids dm k0) (sinv_init c fids dm k0) Hclk) as [Hc1 Hc2].
+  destruct (run_spec c fids dm k0 ops Hsp Hff1 Hc1) as [Hi Ha]. fold w in Hi, Ha.
+  apply crash_points_ok; assumption.
+Qed.
+
+(* ---------- several writers: each call is atomic under FileSink.l, so an execution is the list of the calls in the
+   order in which they acquired the mutex, each tagged with the writer that made it ---------- *)
+Fixpoint ack_log (c : cfg) (w : world) (s : list (N * op)) : list (N * N) :=
+  match s with
+  | [] => []
+  | (i, o) :: r => map (pair i) (op_ack c w o) ++ ack_log c (step c w o) r
+  end.
+Lemma ack_log_app c s1 : forall w s2, ack_log c w (s1 ++ s2) = ack_log c w s1 ++ ack_log c (run_from c w (map snd s1)) s2.
+Proof.
+  induction s1 as [|[i o] r IH]; intros w s2; cbn [app ack_log map snd run_from fold_left]; [reflexivity|].
+  rewrite IH, app_assoc. reflexivity.
+Qed.
+Lemma acked_run_log c s : special c = false -> fault_free (map snd s) -> forall w, sinv c w -> clock_ok (clock w) (map snd s) ->
+  acked (run_from c w (map snd s)) = acked w ++ map snd (ack_log c w s).
+Proof.
+  intros Hsp. induction s as [|[i o] r IH]; intros Hff w Hi Hc; cbn [map snd run_from fold_left ack_log] in *; [rewrite app_nil_r; reflexivity|].
+  inversion Hff as [|? ? Hfo Hfr]; subst. destruct Hc as [Hc1 Hc2].
+  destruct (step_spec c w o Hsp Hi Hc1) as [S1 [S2 S3]]. destruct (S3 Hfo) as [_ S5].
+  unfold run_from in IH. rewrite IH; [|exact Hfr|exact S1|rewrite S2; exact Hc2].
+  rewrite S5, map_app, map_map. cbn [snd]. rewrite map_id, app_assoc. reflexivity.
+Qed.
+(* the files hold, oldest to newest, exactly the events of the calls that returned nil, in the order of mutex acquisition
+   (minus the prefix removed by retention): a merge of whole events that keeps every writer's program order *)
+Theorem serialised_writers c fids dm k0 (s : list (N * op)) :
+  special c = false -> fault_free (map snd s) -> clock_ok k0 (map snd s) ->
+  let w := run c fids dm k0 (map snd s) in
+  pruned w ++ reading (files w) = map snd (ack_log c (w_init fids dm k0) s).
+Proof.
+  intros Hsp Hff Hc w. unfold w. rewrite <- (acked_is_pruned_plus_reading c fids dm k0 (map snd s) Hsp Hff Hc).
+  unfold run. rewrite acked_run_log; auto. apply sinv_init.
+Qed.
